@@ -229,7 +229,8 @@ def iteration(index, rep):
     def slot0_ok(r):
         if not (isinstance(r.value, ast.Tuple) and r.value.elts):
             return False
-        alts = inl_r.alternatives(r.value.elts[0]) or []
+        from .core import through_helpers
+        alts = through_helpers({}, inl_r, r.value.elts[0]) or []
         # every way the value can be defined: the interpreted results' percent fed (or NaN after a failed optimisation), divided by 100
         return bool(alts) and all(_re.fullmatch(r"(.+\.run_and_analyze_scenario\(.*\)\.percent_people_fed|\w+\.percent_people_fed|np\.nan) ?(/ ?100(\.0)?|\* ?0\.01)", a_, _re.S)
                                    for a_ in alts)
